@@ -404,3 +404,26 @@ Theorem C01_tls12_aead_connection : forall C, CryptoLaws C -> forall tbl parts k
   exists s' out, session_run C tbl parts keylog s ((true, r) :: mid ++ rs) = Ok (s', out) /\ data_entries out = flat_map app_of evs.
 Proof. exact tls12_aead_connection. Qed.
 Print Assumptions C01_tls12_aead_connection.
+
+(* ... and from the ClientHello record on (a whole ClientHello as the body of one record; the key log is searched with its random).
+   The premises on the session hold for a fresh one (core0). *)
+Theorem C01_tls12_aead_connection_from_client_hello : forall C, CryptoLaws C -> forall tbl parts keylog
+  s0 rc hvc randomc restc r hv random sid suite es more cs a x xs k v ms_s Fc mid version evs stc sts stc' sts' rs,
+  ts_server_cc s0 = false -> ts_client_cc s0 = false -> hsst true s0 = (0, []) -> hsst false s0 = (0, []) ->
+  r_type rc = 22 -> r_body rc = hm (1, hvc ++ randomc ++ restc) -> wfm (1, hvc ++ randomc ++ restc) -> len hvc = 2 -> len randomc = 32 ->
+  r_type r = 22 -> r_body r = sh_message hv random sid suite 0 es ++ more ->
+  len hv = 2 -> len random = 32 -> len sid < 256 -> len suite = 2 ->
+  match es with None => True | Some l => Forall ext_ok l /\ len (enc_exts l) < 65536 end -> wfm (2, sh_body hv random sid suite es) ->
+  version_choice (from_be (r_version r)) (from_be hv) es = Some v -> v <> TLS13 ->
+  SuiteParser.split_cipher_suite tbl parts (from_be suite) = Some cs -> algo_of cs = Some a -> a = AESGCM \/ a = AESCCM -> 0 <= s_tag cs ->
+  filter (fun q => bytes_eqb (s_random q) randomc) keylog = x :: xs -> derive_session_keys C v cs (x :: xs) randomc random = Ok (K12 k) ->
+  Forall wfm ms_s -> Forall wfm Fc -> Forall (fun m => fst m <> 1 /\ fst m <> 2) ms_s -> Forall (fun m => fst m <> 1 /\ fst m <> 2) Fc ->
+  Forall (fun y => r_type (snd y) = 22 /\ r_body (snd y) <> []) mid -> more ++ bodies true mid = stream ms_s -> bodies false mid = stream Fc ->
+  len version = 2 -> ss_seq stc = 0 -> ss_seq sts = 0 -> Z.of_nat (length evs) <= 2 ^ 64 -> Forall ev12_ok evs -> ordered false false evs ->
+  play12 C a (client_key k) (client_iv k) (server_key k) (server_iv k) version (s_tag cs) stc sts evs = Ok (stc', sts', rs) ->
+  exists s' out, session_run C tbl parts keylog s0 ((false, rc) :: (true, r) :: mid ++ rs) = Ok (s', out) /\ data_entries out = flat_map app_of evs.
+Proof. exact tls12_aead_connection_ch. Qed.
+Print Assumptions C01_tls12_aead_connection_from_client_hello.
+
+Example C01_fresh_session_premises : ts_server_cc core0 = false /\ ts_client_cc core0 = false /\ hsst true core0 = (0, []) /\ hsst false core0 = (0, []).
+Proof. repeat split. Qed.
